@@ -5,13 +5,16 @@
 (* per stage and one per iteration of the parse loop:                          *)
 (*   "rt"  job: a tree and serialise options:  Serialise -> Lex -> Step* -> done*)
 (*   "doc" job: a document given as token symbols and parse options:           *)
-(*              Render -> Lex -> Step* -> done   (every branch of the loop)    *)
+(*              Render -> Lex -> Step* -> done   (every branch of the loop);   *)
+(*              a finished document that the loop read to its end is grown by  *)
+(*              one symbol (Grow), so only documents with new behaviour exist  *)
+(*   "txt" job: a short text: Lex -> Step* -> done  (lexer and loop together)  *)
 (* The jobs are all members of small families chosen by the constants.  When a *)
 (* job is done it is printed (ACTION_CONSTRAINT Emit), so the harness executes *)
 (* exactly the family TLC explored on the real code.                           *)
 EXTENDS KV1Ops, TLC, Json
 
-CONSTANTS Fams,        \* subset of {"strings", "shapes", "docs"}
+CONSTANTS Fams,        \* subset of {"strings", "shapes", "docs", "texts"}
           NameAlpha,   \* code points for rich names (no LF / CR: names carry no line breaks)
           ValAlpha,    \* code points for rich values
           RichLen,     \* one rich string per tree: length <= RichLen
@@ -19,13 +22,14 @@ CONSTANTS Fams,        \* subset of {"strings", "shapes", "docs"}
           ShapeNames, ShapeVals,   \* the strings of the shape family (as sets of code point tuples)
           ShapeDepth,  \* 1 or 2: depth of the blocks in the shape family
           DocAlpha,    \* token symbols
-          DocLen       \* documents of at most DocLen symbols
+          DocAlphaNL,  \* token symbols used with the newline_keys / newline_values options
+          DocLen,      \* documents of at most DocLen symbols
+          LexAlpha, LexLen   \* family "texts": every text of at most LexLen characters over LexAlpha
 
 VARIABLES job, ph, text, toks, st, hist
 vars == <<job, ph, text, toks, st, hist>>
 
 StrUpTo(A, L) == UNION {[1..n -> A] : n \in 0..L}
-SA == <<97>>   SB == <<98>>   SC == <<99>>   SUA == <<65>>
 
 (* ---- serialise options ---------------------------------------------------- *)
 SerOpts == {[indent |-> <<TAB>>,     braces |-> TRUE,  start |-> <<>>],         \* the defaults
@@ -64,46 +68,32 @@ ShapeFam == <<
     IF ShapeDepth >= 2 THEN {RootDoc(<<nd>>) : nd \in N2} ELSE {},
     IF ShapeDepth >= 2 THEN {RootDoc(<<nd, Leaf(SA, SB, 0)>>) : nd \in N2} ELSE {} >>
 
-RtJobs(docs) == {[kind |-> "rt", doc |-> d, o |-> o, syms |-> <<>>, po |-> DefaultParse] : d \in docs, o \in SerOpts}
+RtJobs(docs) == {[kind |-> "rt", doc |-> d, o |-> o, syms |-> <<>>, txt |-> <<>>, po |-> DefaultParse] : d \in docs, o \in SerOpts}
 
 (* ---- family "docs": documents as token symbols ----------------------------- *)
-\* the flags of the platform are fixed in the model: win32 on, x360 off, user flag "u" on
-SWin32 == <<119, 105, 110, 51, 50>>
-SX360 == <<120, 51, 54, 48>>
-SU == <<117>>
-ModelDefaults == <<<<SWin32, TRUE>>, <<SX360, FALSE>>>>
-ModelFlags == <<<<SU, TRUE>>>>
-Q(s) == <<DQ>> \o s \o <<DQ>>
-SymText(y) ==
-    CASE y = "a"   -> Q(SA) \o <<SP>>
-      [] y = "b"   -> SB \o <<SP>>                                  \* a bare word
-      [] y = "A"   -> Q(SUA) \o <<SP>>
-      [] y = "n"   -> Q(<<120, LF>>) \o <<SP>>                       \* a string with a line break inside
-      [] y = "nl"  -> <<LF>>
-      [] y = "{"   -> <<LBRC>>
-      [] y = "}"   -> <<RBRC>>
-      [] y = "on"  -> <<LBRK>> \o SWin32 \o <<RBRK>>
-      [] y = "off" -> <<LBRK, BANG, 85, RBRK>>                       \* [!U]: folded, user flag, inverted
-      [] y = "="   -> <<EQS>>
-      [] y = "]"   -> <<RBRK, SP>>                                   \* the tokenizer refuses it
-SymKind(y) == CASE y \in {"a", "b", "A", "n"} -> "STR" [] y = "nl" -> "NL" [] y = "{" -> "OPEN"
-                [] y = "}" -> "CLOSE" [] y \in {"on", "off"} -> "FLAG" [] y = "=" -> "EQ" [] y = "]" -> "ERR"
-Render(syms) == FoldLeft(LAMBDA acc, y : acc \o SymText(y), <<>>, syms)
-\* kinds the lexer must produce: up to the first refused symbol, else EOF at the end
-RenderKinds(syms) ==
-    LET bad == SelectInSeq(syms, LAMBDA y : y = "]") IN
-    IF bad = 0 THEN [i \in 1..Len(syms) |-> SymKind(syms[i])] \o <<"EOF">>
-    ELSE [i \in 1..bad |-> SymKind(syms[i])]
-
-DocSyms == StrUpTo(DocAlpha, DocLen)
-Has(syms, y) == \E i \in 1..Len(syms) : syms[i] = y
 PO(sl, sb, nk, nv) == [flags |-> ModelFlags, defaults |-> ModelDefaults, nk |-> nk, nv |-> nv,
                        sl |-> sl, sb |-> sb, lex |-> DefaultLex]
-\* single_line x single_block for every document; the newline options where a line break occurs
-DocOpts(syms) == {PO(sl, sb, FALSE, TRUE) : sl \in BOOLEAN, sb \in BOOLEAN}
-                 \cup (IF Has(syms, "n") THEN {PO(FALSE, FALSE, TRUE, TRUE), PO(FALSE, FALSE, TRUE, FALSE)} ELSE {})
-DocJobs == UNION {{[kind |-> "doc", doc |-> RootDoc(<<>>), o |-> DefaultSer, syms |-> y, po |-> p] : p \in DocOpts(y)}
-                  : y \in DocSyms}
+\* single_line x single_block over the whole alphabet; the newline options over DocAlphaNL
+MainOpts == {PO(sl, sb, FALSE, TRUE) : sl \in BOOLEAN, sb \in BOOLEAN}
+NLOpts == {PO(FALSE, FALSE, TRUE, TRUE), PO(FALSE, FALSE, TRUE, FALSE), PO(FALSE, FALSE, FALSE, FALSE)}
+AlphaFor(p) == IF p \in MainOpts THEN DocAlpha ELSE DocAlphaNL
+\* longer documents that reach the rarest branches already with a small DocLen
+SeedSyms == {<<"a", "a", "nl", "a", "a", "on", "nl">>,                       \* value replaced by its flagged twin
+             <<"a", "a", "nl", "b", "a", "on", "nl">>,                       \* other name: appended
+             <<"a", "a", "nl", "a", "a", "off", "nl", "a", "b", "on", "nl">>,  \* a dropped value does not end the replace window
+             <<"a", "{", "}", "a", "on", "nl", "{", "a", "b", "nl", "}">>,     \* block replaced by its flagged twin
+             <<"a", "{", "}", "a", "a", "on", "nl">>,                        \* a value does not replace a block
+             <<"a", "a", "nl", "a", "on", "nl", "{", "}">>,                    \* a block does not replace a value
+             <<"a", "off", "nl", "{", "}", "a", "on", "nl", "{", "}">>,        \* replace window open on an empty list
+             <<"a", "off", "nl", "{", "}", "a", "a", "on", "nl">>,
+             <<"a", "off", "nl", "{", "b", "{", "a", "a", "nl", "}", "}", "b", "b">>,   \* nested inside a skipped block
+             <<"a", "{", "nl", "b", "{", "nl", "a", "b", "nl", "}", "nl", "}", "nl">>}
+DocJob(y, p) == [kind |-> "doc", doc |-> RootDoc(<<>>), o |-> DefaultSer, syms |-> y, txt |-> <<>>, po |-> p]
+
+(* ---- family "texts": every short text, for the lexer and the loop together --- *)
+TxtJob(t, esc) == [kind |-> "txt", doc |-> RootDoc(<<>>), o |-> DefaultSer, syms |-> <<>>, txt |-> t,
+                   po |-> [PO(FALSE, FALSE, FALSE, TRUE) EXCEPT !.lex.esc = esc]]
+HasChar(t, c) == \E i \in 1..Len(t) : t[i] = c
 
 \* the branch labels of the parse loop, for the vacuity check of the harness
 ASSUME PrintT(ToJson([tag |-> "BRANCHES", all |-> Branches]))
@@ -111,7 +101,11 @@ ASSUME PrintT(ToJson([tag |-> "BRANCHES", all |-> Branches]))
 (* ---- the machine ------------------------------------------------------------ *)
 Init == /\ \/ "strings" \in Fams /\ \E i \in 1..Len(StringFam) : job \in RtJobs(StringFam[i])
            \/ "shapes" \in Fams /\ \E i \in 1..Len(ShapeFam) : job \in RtJobs(ShapeFam[i])
-           \/ "docs" \in Fams /\ job \in DocJobs
+           \/ "docs" \in Fams /\ \E p \in MainOpts \cup NLOpts : job = DocJob(<<>>, p)
+           \/ "docs" \in Fams /\ \E y \in SeedSyms, p \in MainOpts : job = DocJob(y, p)
+           \/ "texts" \in Fams /\ \E t \in StrUpTo(LexAlpha, LexLen) :
+                    \/ job = TxtJob(t, TRUE)
+                    \/ HasChar(t, BS) /\ job = TxtJob(t, FALSE)
         /\ ph = "start" /\ text = <<>> /\ toks = <<>> /\ st = PInit /\ hist = <<>>
 
 DoSerialise == /\ ph = "start" /\ job.kind = "rt"
@@ -120,6 +114,9 @@ DoSerialise == /\ ph = "start" /\ job.kind = "rt"
 DoRender == /\ ph = "start" /\ job.kind = "doc"
             /\ text' = Render(job.syms)
             /\ ph' = "text" /\ UNCHANGED <<job, toks, st, hist>>
+DoGiven == /\ ph = "start" /\ job.kind = "txt"
+           /\ text' = job.txt
+           /\ ph' = "text" /\ UNCHANGED <<job, toks, st, hist>>
 DoLex == /\ ph = "text"
          /\ toks' = Lex(text, job.po.lex)
          /\ ph' = "parsing" /\ UNCHANGED <<job, text, st, hist>>
@@ -130,12 +127,19 @@ DoParse == /\ ph = "parsing" /\ job.kind = "rt"
            /\ ph' = "done"
            /\ UNCHANGED <<job, text, toks>>
 \* a document of the parse family: one iteration of the token loop of Keyvalues.parse
-DoStep == /\ ph = "parsing" /\ job.kind = "doc"
+DoStep == /\ ph = "parsing" /\ job.kind \in {"doc", "txt"}
           /\ st' = Step(st, toks, job.po)
           /\ hist' = Append(hist, st'.br)
           /\ ph' = IF st'.done THEN "done" ELSE "parsing"
           /\ UNCHANGED <<job, text, toks>>
-Next == DoSerialise \/ DoRender \/ DoLex \/ DoParse \/ DoStep
+\* The family of documents grows by one symbol wherever the loop read the previous document to
+\* its end (an error or a single_block return before the end is the same for every extension).
+Growable == /\ ph = "done" /\ job.kind = "doc" /\ Len(job.syms) < DocLen
+            /\ toks[Len(toks)].t = "EOF" /\ st.hi = Len(toks)
+Grow(y) == /\ Growable /\ y \in AlphaFor(job.po)
+           /\ job' = DocJob(Append(job.syms, y), job.po)
+           /\ ph' = "start" /\ text' = <<>> /\ toks' = <<>> /\ st' = PInit /\ hist' = <<>>
+Next == (\E y \in DocAlpha \cup DocAlphaNL : Grow(y)) \/ DoSerialise \/ DoRender \/ DoGiven \/ DoLex \/ DoParse \/ DoStep
 Spec == Init /\ [][Next]_vars
 
 (* ---- the listed property --------------------------------------------------- *)
@@ -162,12 +166,24 @@ Lines(nd) == <<nd.line>> \o FoldLeft(LAMBDA acc, kid : acc \o Lines(kid), <<>>, 
 LinesIncrease == (IsRt /\ ph = "done" /\ st.res.ok) =>
                     LET ls == FoldLeft(LAMBDA acc, kid : acc \o Lines(kid), <<>>, st.res.node.k)
                     IN  \A i \in 1..(Len(ls) - 1) : ls[i] < ls[i + 1]
+(* ---- the lexer ----------------------------------------------------------------- *)
+\* total: the stream ends with EOF or with the one error; nothing follows either; a token needs
+\* at least one character; the line counter starts at 1, never decreases, and is bounded by the
+\* line breaks in the text
+IsBreak(c) == c = LF \/ c = CR
+LexShape == (ph = "parsing" /\ hist = <<>>) =>
+    /\ Len(toks) >= 1 /\ Len(toks) <= Len(text) + 1
+    /\ toks[Len(toks)].t \in {"EOF", "ERR"}
+    /\ \A k \in 1..(Len(toks) - 1) : toks[k].t \notin {"EOF", "ERR"} /\ toks[k].line <= toks[k + 1].line
+    /\ toks[1].line >= 1
+    /\ toks[Len(toks)].line <= 1 + Len(SelectSeq(text, IsBreak))
+    /\ \A k \in 1..Len(toks) : (toks[k].t = "ERR") <=> (toks[k].k # "")
 (* ---- the parse machine -------------------------------------------------------- *)
 DocLexes == (job.kind = "doc" /\ ph = "parsing" /\ hist = <<>>) => TokKinds(toks) = RenderKinds(job.syms)
 \* the loop ends: with EOF (or an error) as the last token, at most one iteration per token
-Terminates == (ph = "parsing" /\ job.kind = "doc") => (st.pos <= Len(toks) /\ Len(hist) < Len(toks))
+Terminates == (ph = "parsing" /\ job.kind # "rt") => (st.pos <= Len(toks) /\ Len(hist) < Len(toks))
 \* the folded Parse the record validator uses is this machine
-ParseAgrees == (ph = "done" /\ job.kind = "doc") => Parse(toks, job.po).res = st.res
+ParseAgrees == (ph = "done" /\ job.kind # "rt") => Parse(toks, job.po).res = st.res
 StackOK == /\ (ph = "parsing" => Depth(st) >= 1 /\ ~st.stack[1].skip)
            /\ (st.bl = "expect" => (Len(TopKids(st)) >= 1 /\ ~LastKid(st).leaf /\ LastKid(st).k = <<>>))
 \* a document without flags that parses as a whole file has balanced braces and keeps every name
@@ -179,6 +195,8 @@ Progress == [][(ph = "parsing" /\ ph' \in {"parsing", "done"}) => (st'.pos > st.
 (* ---- emission ------------------------------------------------------------------ *)
 Emit == (ph' = "done") =>
             PrintT(ToJson([tag |-> "JOB", kind |-> job.kind, doc |-> job.doc, o |-> job.o, syms |-> job.syms,
+                           txt |-> job.txt, esc |-> job.po.lex.esc,
                            po |-> [sl |-> job.po.sl, sb |-> job.po.sb, nk |-> job.po.nk, nv |-> job.po.nv],
-                           hist |-> hist', ok |-> st'.res.ok, err |-> st'.res.err]))
+                           hist |-> hist', ok |-> st'.res.ok, err |-> st'.res.err,
+                           grow |-> (job.kind = "doc" /\ Len(job.syms) < DocLen /\ toks[Len(toks)].t = "EOF" /\ st'.hi = Len(toks))]))
 =============================================================================
